@@ -14,6 +14,11 @@ Proof.
   intros H. rewrite <- Zminus_mod. apply Z.mod_small. exact H.
 Qed.
 
+Lemma e_mon_mk a b c d e f g h i j tm : e_mon (mkEp a b c d e f g h i j tm) = tm_mon tm.
+Proof. reflexivity. Qed.
+Lemma tm_mon_e e : tm_mon (e_tm e) = e_mon e.
+Proof. reflexivity. Qed.
+
 Lemma skipn_app_le {A} n (l1 l2 : list A) :
   (n <= length l1)%nat -> skipn n (l1 ++ l2) = skipn n l1 ++ l2.
 Proof.
@@ -95,7 +100,7 @@ Record dinv (strict : bool) (X Y : ep) (fwd bwd logf : list frame)
   d_next : e_next X = zlen (segs_of (e_pmps X) W) mod 64;
   d_lack : e_lack X = zlen done mod 64;
   d_win : zlen (e_txw X) <= e_pwin X;
-  d_work : strict = true -> e_pend X <> [] -> zlen (e_txw X) = e_pwin X;
+  d_work : strict = true -> e_mon X = MonNone -> e_pend X <> [] -> zlen (e_txw X) = e_pwin X;
   d_busy : e_busy X = false;
   d_fwd : ikeys fwd = map pkey infl;
   d_log : ikeys logf = map pkey (done ++ rcv ++ infl);
@@ -112,7 +117,8 @@ Definition dinvE (X Y : ep) (fwd bwd logf : list frame) (W S : list (list Z)) : 
 
 Definition snd_eq (e e' : ep) : Prop :=
   e_pmps e' = e_pmps e /\ e_pwin e' = e_pwin e /\ e_next e' = e_next e /\
-  e_lack e' = e_lack e /\ e_pend e' = e_pend e /\ e_txw e' = e_txw e /\ e_busy e' = e_busy e.
+  e_lack e' = e_lack e /\ e_pend e' = e_pend e /\ e_txw e' = e_txw e /\ e_busy e' = e_busy e /\
+  e_mon e' = e_mon e.
 Definition rcv_eq (e e' : ep) : Prop :=
   e_req e' = e_req e /\ e_lackrx e' = e_lackrx e /\ e_insdu e' = e_insdu e.
 
@@ -120,8 +126,8 @@ Lemma dinv_transport st X Y X' Y' fwd bwd lg W S done rcv infl rs :
   dinv st X Y fwd bwd lg W S done rcv infl rs -> snd_eq X X' -> rcv_eq Y Y' ->
   dinv st X' Y' fwd bwd lg W S done rcv infl rs.
 Proof.
-  intros [] (E1 & E2 & E3 & E4 & E5 & E6 & E7) (F1 & F2 & F3).
-  constructor; rewrite ?E1, ?E2, ?E3, ?E4, ?E5, ?E6, ?E7, ?F1, ?F2, ?F3; auto.
+  intros [] (E1 & E2 & E3 & E4 & E5 & E6 & E7 & E8) (F1 & F2 & F3).
+  constructor; rewrite ?E1, ?E2, ?E3, ?E4, ?E5, ?E6, ?E7, ?E8, ?F1, ?F2, ?F3; auto.
 Qed.
 
 (* ---------- receiver view of the sender-side functions (no invariant needed) ------- *)
@@ -132,13 +138,13 @@ Definition rcv_after (e e' : ep) (out : list frame) : Prop :=
 
 Lemma po_rcv e e' out : process_output e = (e', out) -> rcv_after e e' out.
 Proof.
-  unfold process_output. destruct (e_busy e).
+  unfold process_output. destruct (e_busy e || mon_set (e_mon e)).
   - intros [= <- <-]. repeat split; auto.
-  - intros [= <- <-]. cbn. repeat split; auto; [|apply iframes_req].
+  - intros [= <- <-]. cbn [e_req e_insdu e_lackrx]. repeat split; auto; [|apply iframes_req].
     destruct (firstn _ _); auto.
 Qed.
 
-Lemma update_ack_rcv e n e' out : update_ack e n = (e', out) -> rcv_after e e' out.
+Lemma update_ack_rcv e n fin e' out : update_ack e n fin = (e', out) -> rcv_after e e' out.
 Proof.
   unfold update_ack. destruct (Z.ltb _ _).
   - intros [= <- <-]. repeat split; auto.
@@ -159,11 +165,11 @@ Lemma on_frame_rcv_i e tx req s l data e' out sdus :
   Forall sframe_ok out /\
   (if delivers s then sdus = [e_insdu e ++ data] /\ e_insdu e' = []
    else sdus = [] /\ e_insdu e' = e_insdu e ++ data) /\
-  ikeys out = ikeys (snd (update_ack e req)).
+  ikeys out = ikeys (snd (update_ack e req true)).
 Proof.
   cbn [on_frame]. intros H Hlar ->.
-  destruct (update_ack e req) as [e1 out1] eqn:Hu.
-  pose proof (update_ack_rcv _ _ _ _ Hu) as (R1 & R2 & R3 & R4).
+  destruct (update_ack e req true) as [e1 out1] eqn:Hu.
+  pose proof (update_ack_rcv _ _ _ _ _ Hu) as (R1 & R2 & R3 & R4).
   rewrite R1, Z.eqb_refl in H. cbn [negb] in H.
   cbn [e_req e_lackrx send_rr] in H.
   assert (Hl1 : e_lackrx e1 = e_req e) by (destruct R3; congruence).
@@ -182,7 +188,7 @@ Proof.
   { apply Forall_app. split; [|constructor; [cbn; auto|constructor]].
     clear -Hu. unfold update_ack in Hu. destruct (Z.ltb _ _).
     - injection Hu as <- <-. constructor.
-    - unfold process_output in Hu. cbn in Hu. destruct (e_busy e).
+    - unfold process_output in Hu. destruct (_ || _).
       + injection Hu as <- <-. constructor.
       + injection Hu as <- <-. apply iframes_ok. }
   split.
@@ -195,11 +201,11 @@ Lemma on_frame_rcv_s e final req e' out sdus :
   e_lackrx e = e_req e ->
   e_req e' = e_req e /\ e_lackrx e' = e_req e' /\ e_insdu e' = e_insdu e /\ sdus = [] /\
   Forall (fun f => req_of f = e_req e) out /\
-  out = snd (update_ack e req).
+  out = snd (update_ack e req final).
 Proof.
   cbn [on_frame]. intros H Hlar.
-  destruct (update_ack e req) as [e1 out1] eqn:Hu.
-  pose proof (update_ack_rcv _ _ _ _ Hu) as (R1 & R2 & R3 & R4).
+  destruct (update_ack e req final) as [e1 out1] eqn:Hu.
+  pose proof (update_ack_rcv _ _ _ _ _ Hu) as (R1 & R2 & R3 & R4).
   cbn in H. injection H as <- <- <-. cbn.
   repeat split; auto. destruct R3; congruence.
 Qed.
@@ -208,24 +214,24 @@ Qed.
    extra frame is a supervisory one *)
 Lemma on_frame_snd e f e' out sdus :
   on_frame e f = (e', out, sdus) -> sframe_ok f ->
-  exists e1 out1 extra,
-    update_ack e (req_of f) = (e1, out1) /\ out = out1 ++ extra /\
+  exists fin e1 out1 extra,
+    update_ack e (req_of f) fin = (e1, out1) /\ out = out1 ++ extra /\
     ikeys extra = [] /\ Forall sframe_ok extra /\
     e_pmps e' = e_pmps e1 /\ e_pwin e' = e_pwin e1 /\ e_next e' = e_next e1 /\
     e_lack e' = e_lack e1 /\ e_pend e' = e_pend e1 /\ e_txw e' = e_txw e1 /\
-    (e_busy e' = e_busy e1 \/ e_busy e' = false).
+    (e_busy e' = e_busy e1 \/ e_busy e' = false) /\ e_mon e' = e_mon e1.
 Proof.
   destruct f as [tx req s l data | func poll final req]; cbn [on_frame req_of sframe_ok].
-  - intros H _. destruct (update_ack e req) as [e1 out1] eqn:Hu.
-    exists e1, out1.
+  - intros H _. destruct (update_ack e req true) as [e1 out1] eqn:Hu.
+    exists true, e1, out1.
     destruct (negb (tx =? e_req e1)).
     + injection H as <- <- <-. exists []. rewrite app_nil_r. repeat split; auto.
     + match type of H with (if ?c then _ else _) = _ => destruct c end.
       * injection H as <- <- <-. exists []. rewrite app_nil_r. cbn. repeat split; auto.
       * cbn in H. injection H as <- <- <-. eexists. cbn.
         repeat split; auto. constructor; [cbn; auto|constructor].
-  - intros H [-> ->]. destruct (update_ack e req) as [e1 out1] eqn:Hu.
-    exists e1, out1, []. cbn in H. injection H as <- <- <-. rewrite app_nil_r. cbn.
+  - intros H [-> ->]. destruct (update_ack e req final) as [e1 out1] eqn:Hu.
+    exists final, e1, out1, []. cbn in H. injection H as <- <- <-. rewrite app_nil_r. cbn.
     repeat split; auto.
 Qed.
 
@@ -235,7 +241,11 @@ Lemma po_snd st X Y fwd bwd lg W S done rcv infl rs X' out :
   process_output X = (X', out) ->
   exists now, dinv true X' Y (fwd ++ out) bwd (lg ++ out) W S done rcv (infl ++ now) rs.
 Proof.
-  intros [] H. unfold process_output in H. rewrite d_busy0 in H.
+  intros [] H. unfold process_output in H. rewrite d_busy0 in H. cbn [orb] in H.
+  destruct (mon_set (e_mon X)) eqn:Em.
+  { (* the monitor handle blocks the output *)
+    injection H as <- <-. exists []. rewrite !app_nil_r.
+    constructor; auto. intros _ Hm. rewrite Hm in Em. discriminate. }
   injection H as <- <-.
   set (k := Z.to_nat (e_pwin X - Z.of_nat (length (e_txw X)))).
   exists (firstn k (e_pend X)).
@@ -244,7 +254,7 @@ Proof.
   - rewrite d_num0. rewrite <- (firstn_skipn k (e_pend X)) at 1. now rewrite <- !app_assoc.
   - now rewrite d_txw0, <- app_assoc.
   - rewrite zlen_app. unfold zlen at 2. rewrite firstn_length. lia.
-  - intros _ Hne. rewrite zlen_app. unfold zlen at 2. rewrite firstn_length.
+  - intros _ _ Hne. rewrite zlen_app. unfold zlen at 2. rewrite firstn_length.
     assert ((k < length (e_pend X))%nat).
     { destruct (Nat.le_gt_cases (length (e_pend X)) k) as [Hle|Hgt]; [|exact Hgt].
       rewrite (skipn_all2 _ Hle) in Hne. congruence. }
@@ -301,9 +311,9 @@ Proof.
 Qed.
 
 (* ---------- L3: X processes a frame coming back from Y ---------- *)
-Lemma snd_ack X Y fwd f bwd lg W S done rcv infl rs X1 out1 :
+Lemma snd_ack X Y fwd f bwd lg W S done rcv infl rs fin X1 out1 :
   dinv true X Y fwd (f :: bwd) lg W S done rcv infl rs ->
-  update_ack X (req_of f) = (X1, out1) ->
+  update_ack X (req_of f) fin = (X1, out1) ->
   exists done' rcv' infl' rs',
     dinv true X1 Y (fwd ++ out1) bwd (lg ++ out1) W S done' rcv' infl' rs'.
 Proof.
@@ -353,11 +363,11 @@ Lemma snd_frame X Y fwd f bwd lg W S X' out sdus :
 Proof.
   intros (done & rcv & infl & rs & I) Hok H.
   destruct (on_frame_snd _ _ _ _ _ H Hok)
-    as (e1 & out1 & extra & Hu & -> & Hk & Hx & E1 & E2 & E3 & E4 & E5 & E6 & E7).
-  destruct (snd_ack _ _ _ _ _ _ _ _ _ _ _ _ _ _ I Hu) as (done' & rcv' & infl' & rs' & I1).
+    as (fin & e1 & out1 & extra & Hu & -> & Hk & Hx & E1 & E2 & E3 & E4 & E5 & E6 & E7 & E8).
+  destruct (snd_ack _ _ _ _ _ _ _ _ _ _ _ _ _ _ _ I Hu) as (done' & rcv' & infl' & rs' & I1).
   exists done', rcv', infl', rs'.
   pose proof I1 as [].
-  constructor; rewrite ?E1, ?E2, ?E3, ?E4, ?E5, ?E6; auto.
+  constructor; rewrite ?E1, ?E2, ?E3, ?E4, ?E5, ?E6, ?E8; auto.
   - destruct E7 as [-> | ->]; auto.
   - now rewrite app_assoc, ikeys_app, Hk, app_nil_r.
   - now rewrite app_assoc, ikeys_app, Hk, app_nil_r.
@@ -429,6 +439,83 @@ Proof.
     constructor; auto.
 Qed.
 
+(* ---------- timer events ---------- *)
+Lemma rcv_peer_extra X Y fwd bwd lg W S Y' out :
+  dinvE X Y fwd bwd lg W S -> rcv_after Y Y' out -> dinvE X Y' fwd (bwd ++ out) lg W S.
+Proof.
+  intros (done & rcv & infl & rs & I) H.
+  exists done, rcv, infl, (rs ++ repeat (zlen done + zlen rcv) (length out)).
+  eapply dinv_bwd_grow; eauto.
+Qed.
+
+Lemma snd_extra X Y fwd bwd lg W S X' extra :
+  dinvE X Y fwd bwd lg W S ->
+  e_pmps X' = e_pmps X -> e_pwin X' = e_pwin X -> e_next X' = e_next X -> e_lack X' = e_lack X ->
+  e_pend X' = e_pend X -> e_txw X' = e_txw X -> e_busy X' = e_busy X ->
+  (e_mon X' = e_mon X \/ e_mon X' <> MonNone) ->
+  ikeys extra = [] -> Forall sframe_ok extra ->
+  dinvE X' Y (fwd ++ extra) bwd (lg ++ extra) W S.
+Proof.
+  intros (done & rcv & infl & rs & []) E1 E2 E3 E4 E5 E6 E7 E8 Hk Hok.
+  exists done, rcv, infl, rs.
+  constructor; rewrite ?E1, ?E2, ?E3, ?E4, ?E5, ?E6, ?E7; auto.
+  - intros Hs Hm. destruct E8 as [E8|E8]; [rewrite E8 in Hm; auto|contradiction].
+  - now rewrite ikeys_app, Hk, app_nil_r.
+  - now rewrite ikeys_app, Hk, app_nil_r.
+  - apply Forall_app. auto.
+Qed.
+
+Lemma send_rr_rcv e fin e' out : send_rr e fin = (e', out) ->
+  e_req e' = e_req e /\ e_insdu e' = e_insdu e /\ e_lackrx e' = e_req e /\
+  out = [SFrame RR false fin (e_req e)].
+Proof. cbn. intros [= <- <-]. auto. Qed.
+
+Lemma retx_timeout_rcv e e' out : retx_timeout e = (e', out) -> rcv_after e e' out.
+Proof.
+  unfold retx_timeout. destruct (e_rrarm e).
+  - intros H. apply send_rr_rcv in H as (R1 & R2 & R3 & ->). cbn in *.
+    repeat split; auto. all: repeat constructor.
+  - intros [= <- <-]. repeat split; auto.
+Qed.
+
+Lemma mon_timeout_rcv e e' out : mon_timeout e = (e', out) -> rcv_after e e' out.
+Proof.
+  unfold mon_timeout. destruct (e_mon e); try (intros [= <- <-]; repeat split; auto).
+  destruct (_ || _).
+  - intros H. apply send_rr_rcv in H as (R1 & R2 & R3 & ->). cbn in *.
+    repeat split; auto. all: repeat constructor.
+  - intros [= <- <-]. repeat split; auto.
+Qed.
+
+Lemma retx_timeout_snd X Y fwd bwd lg W S X' out :
+  dinvE X Y fwd bwd lg W S -> retx_timeout X = (X', out) ->
+  dinvE X' Y (fwd ++ out) bwd (lg ++ out) W S.
+Proof.
+  intros I H. unfold retx_timeout in H. destruct (e_rrarm X).
+  - cbn in H. injection H as <- <-.
+    eapply snd_extra; eauto; cbn; auto.
+    all: try (right; discriminate).
+    all: try (constructor; [cbn; auto|constructor]).
+  - injection H as <- <-. now rewrite !app_nil_r.
+Qed.
+
+Lemma mon_timeout_snd X Y fwd bwd lg W S X' out :
+  dinvE X Y fwd bwd lg W S -> mon_timeout X = (X', out) ->
+  dinvE X' Y (fwd ++ out) bwd (lg ++ out) W S.
+Proof.
+  intros I H. unfold mon_timeout in H.
+  destruct (e_mon X) eqn:Em; try (injection H as <- <-; now rewrite !app_nil_r).
+  destruct (_ || _).
+  - cbn in H. injection H as <- <-.
+    eapply snd_extra; eauto; cbn; auto.
+    all: try (right; discriminate).
+    all: try (constructor; [cbn; auto|constructor]).
+  - injection H as <- <-. rewrite !app_nil_r.
+    eapply (snd_extra _ _ _ _ _ _ _ _ []) in I; [rewrite !app_nil_r in I; exact I| | | | | | | | | | ];
+      cbn; auto.
+    all: try (right; discriminate).
+Qed.
+
 (* ---------- the two-party system ---------- *)
 Definition Inv (s : sys) (WA WB : list (list Z)) : Prop :=
   dinvE (s_a s) (s_b s) (s_ab s) (s_ba s) (s_log_ab s) WA (s_sink_b s) /\
@@ -442,7 +529,7 @@ Lemma dinv_init pmps pwin qmps qwin :
   dinvE (ep_init pmps pwin) (ep_init qmps qwin) [] [] [] [] [].
 Proof.
   intros Hm Hw. exists [], [], [], []. constructor; cbn; auto; try lia.
-  intros _ Hf. congruence.
+  intros _ _ Hf. congruence.
 Qed.
 
 Lemma inv_init mps_a win_a mps_b win_b :
@@ -460,7 +547,8 @@ Proof. intros (done & rcv & infl & rs & []). now inversion d_sok0. Qed.
 Lemma inv_step s WA WB l :
   Inv s WA WB -> Inv (step s l) (WA ++ wa_of l) (WB ++ wb_of l).
 Proof.
-  intros [IA IB]. destruct l as [sdu | sdu | | ]; cbn [step wa_of wb_of]; rewrite ?app_nil_r.
+  intros [IA IB]. destruct l as [sdu | sdu | | | | | | ];
+    cbn [step wa_of wb_of]; rewrite ?app_nil_r.
   - destruct (send_sdu (s_a s) sdu) as [a out] eqn:E. split; cbn.
     + eapply snd_write; eauto.
     + eapply rcv_peer_write; eauto.
@@ -475,6 +563,18 @@ Proof.
     destruct (on_frame (s_a s) f) as [[a out] sdus] eqn:E. split; cbn.
     + eapply snd_frame; eauto. eapply dinvE_head_ok; eauto.
     + eapply rcv_frame; eauto.
+  - destruct (retx_timeout (s_a s)) as [a out] eqn:E. split; cbn.
+    + eapply retx_timeout_snd; eauto.
+    + eapply rcv_peer_extra; eauto. eapply retx_timeout_rcv; eauto.
+  - destruct (retx_timeout (s_b s)) as [b out] eqn:E. split; cbn.
+    + eapply rcv_peer_extra; eauto. eapply retx_timeout_rcv; eauto.
+    + eapply retx_timeout_snd; eauto.
+  - destruct (mon_timeout (s_a s)) as [a out] eqn:E. split; cbn.
+    + eapply mon_timeout_snd; eauto.
+    + eapply rcv_peer_extra; eauto. eapply mon_timeout_rcv; eauto.
+  - destruct (mon_timeout (s_b s)) as [b out] eqn:E. split; cbn.
+    + eapply rcv_peer_extra; eauto. eapply mon_timeout_rcv; eauto.
+    + eapply mon_timeout_snd; eauto.
 Qed.
 
 Lemma writes_a_app l1 l2 : writes_a (l1 ++ l2) = writes_a l1 ++ writes_a l2.
@@ -491,11 +591,58 @@ Proof.
     destruct l; cbn [wa_of wb_of] in I; rewrite ?app_nil_r, <- ?app_assoc in I; exact I.
 Qed.
 
+(* with or without timer events *)
 Lemma inv_reachable mps_a win_a mps_b win_b sched :
   params_ok mps_a win_a mps_b win_b ->
   Inv (run (sys_init mps_a win_a mps_b win_b) sched) (writes_a sched) (writes_b sched).
 Proof.
   intros H. apply inv_init in H. apply (inv_run sched) in H. exact H.
+Qed.
+
+(* ---------- without timer events no monitor handle is ever set ---------- *)
+Lemma po_mon e e' out : process_output e = (e', out) -> e_mon e' = e_mon e.
+Proof.
+  unfold process_output. destruct (_ || _); intros [= <- <-]; [reflexivity|].
+  rewrite e_mon_mk. destruct (firstn _ _); reflexivity.
+Qed.
+Lemma update_ack_mon e n fin e' out :
+  update_ack e n fin = (e', out) -> e_mon e = MonNone -> e_mon e' = MonNone.
+Proof.
+  unfold update_ack. destruct (Z.ltb _ _); [intros [= <- <-]; auto|].
+  intros H Hm. apply po_mon in H. rewrite H, e_mon_mk. cbn [tm_mon]. rewrite Hm.
+  now destruct fin.
+Qed.
+Lemma send_sdu_mon e w e' out : send_sdu e w = (e', out) -> e_mon e' = e_mon e.
+Proof. unfold send_sdu. destruct (assign _ _). intros H. apply po_mon in H. exact H. Qed.
+Lemma on_frame_mon e f e' out sd :
+  on_frame e f = (e', out, sd) -> e_mon e = MonNone -> e_mon e' = MonNone.
+Proof.
+  destruct f; cbn [on_frame];
+    match goal with |- context [update_ack e ?r ?b] => destruct (update_ack e r b) as [e1 o1] eqn:Hu end;
+    intros H Hm; apply update_ack_mon in Hu; auto.
+  - destruct (negb _); [injection H as <- <- <-; assumption|].
+    match type of H with (if ?c then _ else _) = _ => destruct c end;
+      cbn in H; injection H as <- <- <-; exact Hu.
+  - destruct (_ && _); cbn in H; injection H as <- <- <-; exact Hu.
+Qed.
+
+Lemma run_mon_none sched : forall s,
+  no_timer sched = true -> e_mon (s_a s) = MonNone -> e_mon (s_b s) = MonNone ->
+  e_mon (s_a (run s sched)) = MonNone /\ e_mon (s_b (run s sched)) = MonNone.
+Proof.
+  unfold run. induction sched as [|l r IH]; intros s Hn Ha Hb; cbn [fold_left]; [auto|].
+  cbn [no_timer forallb] in Hn. apply andb_true_iff in Hn as [Hl Hr].
+  apply IH; [exact Hr| |]; destruct l; try discriminate Hl; cbn [step].
+  - destruct (send_sdu (s_a s) sdu) eqn:E. apply send_sdu_mon in E. cbn. congruence.
+  - destruct (send_sdu (s_b s) sdu) eqn:E. cbn. assumption.
+  - destruct (s_ab s); [assumption|]. destruct (on_frame (s_b s) f) as [[? ?] ?]. cbn. assumption.
+  - destruct (s_ba s); [assumption|]. destruct (on_frame (s_a s) f) as [[? ?] ?] eqn:E.
+    cbn. eapply on_frame_mon; eauto.
+  - destruct (send_sdu (s_a s) sdu) eqn:E. cbn. assumption.
+  - destruct (send_sdu (s_b s) sdu) eqn:E. apply send_sdu_mon in E. cbn. congruence.
+  - destruct (s_ab s); [assumption|]. destruct (on_frame (s_b s) f) as [[? ?] ?] eqn:E.
+    cbn. eapply on_frame_mon; eauto.
+  - destruct (s_ba s); [assumption|]. destruct (on_frame (s_a s) f) as [[? ?] ?]. cbn. assumption.
 Qed.
 
 (* ---------- consequences of the direction invariant ---------- *)
@@ -510,16 +657,17 @@ Proof.
 Qed.
 
 Lemma dinvE_quiescent X Y lg W S :
-  dinvE X Y [] [] lg W S -> S = W /\ e_pend X = [] /\ e_txw X = [] /\ e_insdu Y = [].
+  dinvE X Y [] [] lg W S -> e_mon X = MonNone ->
+  S = W /\ e_pend X = [] /\ e_txw X = [] /\ e_insdu Y = [].
 Proof.
-  intros (done & rcv & infl & rs & []).
+  intros (done & rcv & infl & rs & []) Hmon.
   inversion d_rs0; subst. cbn in d_chain0.
   assert (rcv = []).
   { destruct rcv; [reflexivity|]. rewrite zlen_cons in d_chain0. pose proof (zlen_nonneg rcv). lia. }
   subst rcv. destruct infl; [|discriminate]. cbn [app] in *.
   assert (Hp : e_pend X = []).
   { destruct (e_pend X) eqn:E; [reflexivity|]. rewrite d_txw0 in d_work0.
-    specialize (d_work0 eq_refl ltac:(congruence)). cbn in d_work0. lia. }
+    specialize (d_work0 eq_refl Hmon ltac:(congruence)). cbn in d_work0. lia. }
   rewrite Hp, !app_nil_r in *.
   assert (H : segs_of (e_pmps X) W = map p_seg done).
   { rewrite <- d_num0. now rewrite number_segs. }
@@ -573,8 +721,8 @@ Qed.
 Definition same_params (e e' : ep) : Prop := e_pwin e' = e_pwin e /\ e_pmps e' = e_pmps e.
 
 Lemma po_params e e' out : process_output e = (e', out) -> same_params e e'.
-Proof. unfold process_output. destruct (e_busy e); intros [= <- <-]; split; reflexivity. Qed.
-Lemma update_ack_params e n e' out : update_ack e n = (e', out) -> same_params e e'.
+Proof. unfold process_output. destruct (_ || _); intros [= <- <-]; split; reflexivity. Qed.
+Lemma update_ack_params e n fin e' out : update_ack e n fin = (e', out) -> same_params e e'.
 Proof.
   unfold update_ack. destruct (Z.ltb _ _); [intros [= <- <-]; split; reflexivity|].
   intros Hp. apply po_params in Hp. exact Hp.
@@ -583,12 +731,21 @@ Lemma send_sdu_params e w e' out : send_sdu e w = (e', out) -> same_params e e'.
 Proof. unfold send_sdu. destruct (assign _ _). intros Hp. apply po_params in Hp. exact Hp. Qed.
 Lemma on_frame_params e f e' out sd : on_frame e f = (e', out, sd) -> same_params e e'.
 Proof.
-  destruct f; cbn [on_frame]; destruct (update_ack e req) as [e1 o1] eqn:Hu;
+  destruct f; cbn [on_frame];
+    match goal with |- context [update_ack e ?r ?b] => destruct (update_ack e r b) as [e1 o1] eqn:Hu end;
     apply update_ack_params in Hu; destruct Hu as [U1 U2].
   - destruct (negb _); [intros [= <- <- <-]; split; assumption|].
     match goal with |- (if ?c then _ else _) = _ -> _ => destruct c end;
       cbn; intros [= <- <- <-]; split; assumption.
   - destruct (_ && _); cbn; intros [= <- <- <-]; split; assumption.
+Qed.
+
+Lemma timeout_params e e' out : retx_timeout e = (e', out) -> same_params e e'.
+Proof. unfold retx_timeout. destruct (e_rrarm e); cbn; intros [= <- <-]; split; reflexivity. Qed.
+Lemma mon_timeout_params e e' out : mon_timeout e = (e', out) -> same_params e e'.
+Proof.
+  unfold mon_timeout. destruct (e_mon e); [intros [= <- <-]; split; reflexivity| |intros [= <- <-]; split; reflexivity].
+  destruct (_ || _); cbn; intros [= <- <-]; split; reflexivity.
 Qed.
 
 Lemma run_params sc : forall s,
@@ -604,11 +761,26 @@ Proof.
     apply on_frame_params in E. cbn. split; [split; reflexivity|exact E].
   - destruct (s_ba s); [repeat split|]. destruct (on_frame (s_a s) f) as [[? ?] ?] eqn:E.
     apply on_frame_params in E. cbn. split; [exact E|split; reflexivity].
+  - destruct (retx_timeout (s_a s)) eqn:E. apply timeout_params in E. cbn. split; [exact E|split; reflexivity].
+  - destruct (retx_timeout (s_b s)) eqn:E. apply timeout_params in E. cbn. split; [split; reflexivity|exact E].
+  - destruct (mon_timeout (s_a s)) eqn:E. apply mon_timeout_params in E. cbn. split; [exact E|split; reflexivity].
+  - destruct (mon_timeout (s_b s)) eqn:E. apply mon_timeout_params in E. cbn. split; [split; reflexivity|exact E].
 Qed.
 
 (* ---------- theorems ---------- *)
-Theorem ertm_exactly_once_in_order mps_a win_a mps_b win_b sched :
+(* safety: with or without timer events *)
+Theorem ertm_in_order_prefix mps_a win_a mps_b win_b sched :
   params_ok mps_a win_a mps_b win_b ->
+  let s := run (sys_init mps_a win_a mps_b win_b) sched in
+  (exists j, s_sink_b s = firstn j (writes_a sched)) /\
+  (exists j, s_sink_a s = firstn j (writes_b sched)).
+Proof.
+  intros H s. destruct (inv_reachable _ _ _ _ sched H) as [IA IB]. fold s in IA, IB.
+  split; eapply dinvE_prefix; eauto.
+Qed.
+
+Theorem ertm_exactly_once_in_order mps_a win_a mps_b win_b sched :
+  params_ok mps_a win_a mps_b win_b -> no_timer sched = true ->
   let s := run (sys_init mps_a win_a mps_b win_b) sched in
   (exists j, s_sink_b s = firstn j (writes_a sched)) /\
   (exists j, s_sink_a s = firstn j (writes_b sched)) /\
@@ -617,12 +789,14 @@ Theorem ertm_exactly_once_in_order mps_a win_a mps_b win_b sched :
      e_pend (s_a s) = [] /\ e_txw (s_a s) = [] /\ e_pend (s_b s) = [] /\ e_txw (s_b s) = [] /\
      e_insdu (s_a s) = [] /\ e_insdu (s_b s) = []).
 Proof.
-  intros H s. destruct (inv_reachable _ _ _ _ sched H) as [IA IB]. fold s in IA, IB.
+  intros H Hn s. destruct (inv_reachable _ _ _ _ sched H) as [IA IB]. fold s in IA, IB.
+  destruct (run_mon_none sched (sys_init mps_a win_a mps_b win_b) Hn eq_refl eq_refl) as [Ma Mb].
+  fold s in Ma, Mb.
   split; [eapply dinvE_prefix; eauto|]. split; [eapply dinvE_prefix; eauto|].
   unfold quiescent. intros Hq.
   destruct (s_ab s) eqn:Eab; [|discriminate]. destruct (s_ba s) eqn:Eba; [|discriminate].
-  apply dinvE_quiescent in IA as (A1 & A2 & A3 & A4).
-  apply dinvE_quiescent in IB as (B1 & B2 & B3 & B4). auto 10.
+  apply dinvE_quiescent in IA as (A1 & A2 & A3 & A4); [|exact Ma].
+  apply dinvE_quiescent in IB as (B1 & B2 & B3 & B4); [|exact Mb]. auto 10.
 Qed.
 
 Theorem window_respected mps_a win_a mps_b win_b sched :
@@ -701,4 +875,22 @@ Theorem basic_exact sched :
 Proof.
   intros s. pose proof (basic_inv sched (mkB [] []) [] eq_refl) as H. cbn in H. fold s in H.
   split; [exact H|]. intros E. now rewrite E, app_nil_r in H.
+Qed.
+
+(* ---------- the no_timer hypothesis is necessary ----------
+   MPS 10, window 2, A writes a 100-byte SDU (10 segments, 2 sent).  A's retransmission
+   timer fires before the first acknowledgement arrives: A sends RR(final=1) and arms the
+   monitor timer, which blocks _process_output.  B's acknowledgements are RR(final=0), so
+   nothing ever clears the monitor; when it fires, the poll counter has reached
+   peer_max_retransmission (1) and the dead handle keeps blocking.  The system is
+   quiescent with 8 pdus still queued and nothing delivered. *)
+Lemma ertm_timer_stall_refuted :
+  exists sched,
+    let s := run (sys_init 10 2 10 2) sched in
+    params_ok 10 2 10 2 /\ quiescent s = true /\ writes_a sched <> [] /\
+    s_sink_b s = [] /\ length (e_pend (s_a s)) = 8%nat /\ e_mon (s_a s) = MonDead.
+Proof.
+  exists [WriteA (repeat 7 100); TimeoutRetxA; DeliverAB; DeliverAB; DeliverAB;
+          DeliverBA; DeliverBA; TimeoutMonA].
+  vm_compute. repeat split; try lia; discriminate.
 Qed.
